@@ -74,7 +74,12 @@ def mk_events(case):
                 l.append(obj)
             out.append(l)
         return out
-    return [[mk_particle(s, case["n"]) for s in ev] for ev in case["events"]]
+    out = [[mk_particle(s, case["n"]) for s in ev] for ev in case["events"]]
+    for e, i, j in case.get("dup_in_event", []):
+        # one Particle object at two positions of ONE event: the tuples run over positions, it counts as two particles
+        if e < len(out) and i < len(out[e]) and j < len(out[e]) and case["events"][e][i] == case["events"][e][j]:
+            out[e][j] = out[e][i]
+    return out
 
 
 def run_impl(case):
@@ -99,6 +104,15 @@ def run_impl(case):
                 bins = np.array(bins, dtype=float)
             elif rep == "int_ndarray" and integral:
                 bins = np.array([int(b) for b in bins], dtype=np.int64)
+        poi = case.get("poi")
+        if poi is not None and case.get("poi_repr") == "obj_ndarray":
+            arr = np.empty(len(poi), dtype=object)             # the documented alternative to a list (elements stay Python ints)
+            arr[:] = [int(x) for x in poi]
+            poi = arr
+        elif poi is not None and case.get("poi_repr") == "int_ndarray":
+            # numpy.array([211]): its elements are numpy.int64 (a documented argument type; the argument check used to reject it,
+            # repaired in /repo - see known_findings.json)
+            poi = np.array([int(x) for x in poi], dtype=np.int64)
         if case.get("reuse"):
             # the SAME estimator object has analysed another sample before, handed over in the SAME list object, which was then
             # refilled in place (same number of events, same multiplicities): nothing of the first sample may survive
@@ -108,7 +122,7 @@ def run_impl(case):
                 if case["mode"] == "int":
                     obj.integrated_flow(L)
                 else:
-                    obj.differential_flow(L, bins, case["sel"], case["poi"])
+                    obj.differential_flow(L, bins, case["sel"], poi)
                 if case["reuse"] == "inner":
                     for i in range(len(L)):
                         L[i][:] = evs[i]
@@ -121,7 +135,7 @@ def run_impl(case):
             if case["mode"] == "int":
                 out["flow"] = {"val": float(obj.integrated_flow(evs)[0])}
             else:
-                r = obj.differential_flow(evs, bins, case["sel"], case["poi"])
+                r = obj.differential_flow(evs, bins, case["sel"], poi)
                 out["flow"] = {"bins": [None if len(b) == 0 else float(np.real(b[0])) for b in r]}
         except (ValueError, TypeError, IndexError, UnboundLocalError, ZeroDivisionError) as e:
             out["flow"] = {"err": type(e).__name__}
@@ -217,8 +231,29 @@ def def_corr(case, k, flags=None):
     return None if den == 0 else num / den
 
 
-def in_bin(P, sel, lo, hi):
-    v = {"pT": P.pT_abs, "rapidity": P.rapidity, "pseudorapidity": P.pseudorapidity}[sel]()
+def sel_value(spec, sel):
+    """the selector value of a generated particle from its spec alone (mk_particle: transverse momentum pt in the azimuthal direction
+    phi, pz = pt sinh(eta), m^2 = 0.0196): pT = pt, pseudorapidity = eta, rapidity from E and pz"""
+    pt, eta = float(spec["pt"]), float(spec["eta"])
+    if sel == "pT":
+        return pt
+    if sel == "pseudorapidity":
+        return eta
+    pz = pt * math.sinh(eta)
+    E = math.sqrt(pt * pt + pz * pz + 0.0196)
+    return 0.5 * math.log((E + pz) / (E - pz))
+
+
+def in_bin(spec, P, sel, lo, hi):
+    """lo <= value < hi with the value computed here from the spec - NOT read from Particle.pT_abs()/rapidity()/pseudorapidity().
+    Only when that value lies within rounding (1e-9) of an edge does the accessor's value decide on which side it falls, and only
+    if it agrees with the value computed here to 1e-9 (edges of the generated cases are placed on accessor values on purpose)"""
+    v = sel_value(spec, sel)
+    eps = 1e-9 * (1.0 + abs(v))
+    if abs(v - lo) <= eps or abs(v - hi) <= eps:
+        vo = float({"pT": P.pT_abs, "rapidity": P.rapidity, "pseudorapidity": P.pseudorapidity}[sel]())
+        if abs(vo - v) <= eps:
+            v = vo
     return lo <= v < hi
 
 
@@ -253,8 +288,10 @@ def expected_flow(case):
     evs = mk_events(case)
     res = []
     for lo, hi in zip(case["bins"][:-1], case["bins"][1:]):
-        flags = [[in_bin(P, case["sel"], lo, hi) and (case["poi"] is None or P.pdg in case["poi"]) for P in ev] for ev in evs]
-        nbin = sum(in_bin(P, case["sel"], lo, hi) for ev in evs for P in ev)
+        # bin membership and species from the case data (spec), not from the Particle accessors the implementation reads
+        flags = [[in_bin(sp, P, case["sel"], lo, hi) and (case["poi"] is None or int(sp["pdg"]) in case["poi"]) for sp, P in zip(sev, ev)]
+                 for sev, ev in zip(case["events"], evs)]
+        nbin = sum(in_bin(sp, P, case["sel"], lo, hi) for sev, ev in zip(case["events"], evs) for sp, P in zip(sev, ev))
         if sum(map(sum, flags)) == 0 or nbin == 0:
             res.append(("empty",))
             continue
@@ -371,6 +408,8 @@ def gen_case(rng, small=False, errors=True):
         case["bins"] = edges
         case["poi"] = rng.choice([None, None, [211], [211, -211], [2212], [3122]])
         case["bins_repr"] = rng.choice(["list", "list", "int_list", "ndarray", "int_ndarray"])
+        if case["poi"] is not None and rng.random() < 0.4:
+            case["poi_repr"] = rng.choice(["obj_ndarray", "int_ndarray"])     # the documented alternative to a list: an ndarray of ids
     if rng.random() < 0.2:
         case["reuse"] = rng.choice(["inner", "outer"])
     if len(evs) > 1 and rng.random() < 0.15:
@@ -381,6 +420,12 @@ def gen_case(rng, small=False, errors=True):
                 if evs[j]:
                     evs[j][rng.randrange(len(evs[j]))] = dict(s)
         case["share"] = True
+    elif rng.random() < 0.15:
+        e = rng.randrange(len(evs))
+        if len(evs[e]) >= 2:
+            i, j = sorted(rng.sample(range(len(evs[e])), 2))
+            evs[e][j] = dict(evs[e][i])
+            case["dup_in_event"] = [[e, i, j]]
     if errors and rng.random() < 0.03:
         case["k"] = rng.choice([3, 5, 8])
     if errors and rng.random() < 0.03:
@@ -500,15 +545,17 @@ def undefined_bins(case, got):
         ref0 = ref0 or c4 is None or abs(c4 - 2 * c2 * c2) < 1e-9
     for b in range(len(edges) - 1):
         tuples = 0
-        for ev in evs:
+        for sev, ev in zip(case["events"], evs):
             M = len(ev)
-            mp = sum(in_bin(P, case["sel"], edges[b], edges[b + 1]) and (case["poi"] is None or P.pdg in case["poi"]) for P in ev)
+            mp = sum(in_bin(sp, P, case["sel"], edges[b], edges[b + 1]) and (case["poi"] is None or int(sp["pdg"]) in case["poi"])
+                     for sp, P in zip(sev, ev))
             t = mp
             for i in range(1, k):
                 t *= max(M - i, 0)
             tuples += t
-        nbin = sum(in_bin(P, case["sel"], edges[b], edges[b + 1]) for ev in evs for P in ev)
-        mpt = sum(in_bin(P, case["sel"], edges[b], edges[b + 1]) and (case["poi"] is None or P.pdg in case["poi"]) for ev in evs for P in ev)
+        pairs = [(sp, P) for sev, ev in zip(case["events"], evs) for sp, P in zip(sev, ev)]
+        nbin = sum(in_bin(sp, P, case["sel"], edges[b], edges[b + 1]) for sp, P in pairs)
+        mpt = sum(in_bin(sp, P, case["sel"], edges[b], edges[b + 1]) and (case["poi"] is None or int(sp["pdg"]) in case["poi"]) for sp, P in pairs)
         if nbin > 0 and mpt > 0 and (tuples == 0 or ref0):
             res[b] = True
     return res
